@@ -209,7 +209,7 @@ pub fn run(args: Args) -> ! {
     rep.rule = "generated Rust programs, each embedding N generated TOML documents restricted to spellings that are both TOML and Rust tokens the macro takes (identifier / `ident-ident` / quoted keys, basic strings with the escapes \\n \\t \\r \\\\ \\\", integers within i32 in four bases with signs and underscores, Rust-lexable floats, inf/nan with signs, booleans, the four date-time kinds with T or space and Z / z / negative offsets, dotted keys, nested inline tables and arrays, [header] and [[header]] sections in legal orders) once inside toml::toml!{..} and once as a string literal; the binary compares the two tables (float bits, NaN sign). A program that does not compile is a violation. Shapes outside the sub-grammar: positive offsets, integers beyond i32, literal and multi-line strings, comments, numeric-looking or keyword-literal bare keys (true/false). non-trivial = a header or dotted key together with a signed number or a date-time; distinct by document".into();
     rep.assumptions = vec!["rustc's lexer defines what a Rust token is; the comparison code is part of the generated program".into()];
     let known_f8 = rep.is_known("F8");
-    let (nprog, ndocs) = args.tier.pick((2usize, 150usize), (16usize, 400usize));
+    let (nprog, ndocs) = args.tier.pick((8usize, 200usize), (32usize, 400usize));
     let mut seed = SplitMix(args.seed ^ 0xC19);
     // F8 excluded by construction in the main programs unless fixed/unknown: sub-table before
     // super-table layouts go to a probe program
